@@ -105,7 +105,7 @@ pub fn c01(tier: Tier) -> i32 {
         "refmodel is a faithful reading of TOML 1.0.0 (validated against the toml-test corpus at setup and against tomllib in the thorough tier)".into(),
         "class U1 documents are skipped and counted (DESIGN.md 3.3)".into(),
     ];
-    docu::run(&mut rep, tier, &["tok", "ctx", "esc", "num", "edge", "dt", "stmt", "inline-stmt", "byte", "corpus", "decor", "cp", "utf8", "nest", "reopen", "stmt-values"], &c01_eval);
+    docu::run(&mut rep, tier, &["tok", "ctx", "esc", "num", "edge", "dt", "stmt", "inline-stmt", "byte", "corpus", "decor", "cp", "utf8", "bom", "nest", "reopen", "stmt-values"], &c01_eval);
     rep.finish()
 }
 
@@ -371,7 +371,7 @@ pub fn c02(tier: Tier) -> i32 {
         "the position of a super-table that is first created implicitly and later defined by its own header is not constrained (source order is ambiguous there)".into(),
         "toml::Table (BTreeMap in the default configuration) is compared modulo key order; order is compared on the toml_edit trees".into(),
     ];
-    docu::run(&mut rep, tier, &["tok", "ctx", "esc", "num", "edge", "dt", "stmt", "stmt3", "inline-stmt", "corpus", "decor", "cp", "reopen", "stmt-values"], &c02_eval);
+    docu::run(&mut rep, tier, &["tok", "ctx", "esc", "num", "edge", "dt", "stmt", "stmt3", "inline-stmt", "corpus", "decor", "cp", "bom", "reopen", "stmt-values"], &c02_eval);
     // "the source order of keys" is only observable through toml::Table when it keeps insertion order: the cfg engine's
     // binary built with `preserve_order` decodes its whole battery and compares the order of every table's value
     // entries with the specification model's
